@@ -5,9 +5,9 @@ cd "$wt" || exit 2
 git checkout -q -- . && git clean -fdq src
 t=$(python3 -c "import json,sys; print(json.load(open('$d/meta.json'))['demo_test'])")
 git apply "$d/demo.diff" || { echo "demo does not apply"; exit 2; }
-a=$(cargo test --offline "$t" 2>&1 | grep -E "^test result" | grep -v " 0 passed; 0 failed" | head -1)
+a=$(cargo test --offline $FEATURES "$t" 2>&1 | grep -E "^test result" | grep -v " 0 passed; 0 failed" | head -1)
 git apply "$d/patch.diff" || { echo "patch does not apply"; exit 2; }
-b=$(cargo test --offline "$t" 2>&1 | grep -E "^test result" | grep -v " 0 passed; 0 failed" | head -1)
+b=$(cargo test --offline $FEATURES "$t" 2>&1 | grep -E "^test result" | grep -v " 0 passed; 0 failed" | head -1)
 git checkout -q -- . && git clean -fdq src
 git apply "$d/patch.diff"
 c=$(cargo test --offline 2>&1 | grep -E "^test result" | head -1)
